@@ -60,6 +60,10 @@ func main() {
 		checks.GenWorker(os.Args[2:])
 		return
 	}
+	if id == "--seq-worker" {
+		checks.SeqWorker(os.Args[2:])
+		return
+	}
 	ctx := &core.Ctx{ID: id, Tier: *tier, Seed: seed, VerifDir: *verif, RepoDir: *repo, Scratch: *scratch, Overlay: *overlay, Replay: *replay, Start: time.Now()}
 	if *budget > 0 {
 		ctx.Deadline = time.Now().Add(*budget)
